@@ -192,9 +192,9 @@ Cb ==
 \* market is closed and every order settled by the exchange's rules (Settlement.tla).  The run ends there.
 CloseUpd ==
     /\ WithClose /\ pc = "idle" /\ s.clock >= 0
-    /\ \E res \in {"WINNER", "LOSER"} :
-         upd' = [NoUpd EXCEPT !.status = "CLOSED", !.version = book.version, !.removed = book.removed,
-                             !.result = IF book.removed THEN "REMOVED" ELSE res]
+    /\ \E res \in {"WINNER", "LOSER", "REMOVED"} :      \* REMOVED: possibly first declared by the closing update itself
+         LET rr == IF book.removed THEN "REMOVED" ELSE res IN
+         upd' = [NoUpd EXCEPT !.status = "CLOSED", !.version = book.version, !.removed = (rr = "REMOVED"), !.result = rr]
     /\ s' = Step(s, [ev |-> "upd", a |-> [pt |-> s.clock + Gap, mid |-> Mid]], <<>>)
     /\ pc' = "cpend"
     /\ last' = [act |-> "closeupd", u |-> upd']
@@ -251,6 +251,7 @@ Inv_C08_LossBounded ==
 Inv_C20_Released == Closed => (s.mkt[Mid].closed /\ s.mkt[Mid].status = "CLOSED" /\ \A k \in DOMAIN s.rc : s.rc[k].mid # Mid)
 \* the sum of the fragments is the matched size at the close (what settlement reads is what was conserved)
 Inv_C04_FragmentsAtClose == Closed => \A o \in DOMAIN s.ord : s.ord[o].inbl => Stl!SumStake(s.ord[o].frags) = s.ord[o].m
+Reach_RemovedAtCloseWithFill == ~(pc = "cpend" /\ upd.removed /\ ~book.removed /\ \E o \in DOMAIN s.ord : s.ord[o].m > 0)
 Reach_ClosedWithFill == ~(Closed /\ \E o \in DOMAIN s.ord : s.ord[o].m > 0)
 Reach_FilledOnClosingUpdate == ~(Closed /\ last.act = "close" /\ \E o \in DOMAIN s.ord : s.ord[o].m > 0 /\ s.ord[o].placed = s.clock)
 Prop_C03_Finality == [][FinalityBroken(s, s') = {}]_vars
